@@ -392,7 +392,7 @@ def check_edit(src, data, mi, e, presave=False, pre=None):
         vs.append(C.viol("edited-object-not-saveable-or-loadable", dict(key, exc=type(ex).__name__), {"error": repr(ex)[:200]}, case))
         return "ok", vs
     d = S.diff(s1n, S.snapshot(o2))
-    if not d and mtype == "MetaModule" and e["k"] in ("mm_map_late", "mm_map", "mm_remap_seq") and not pre:
+    if not d and mtype == "MetaModule" and e["k"] in ("mm_map_late", "mm_remap_seq") and not pre:
         # N13 compares user-defined controllers by their STORED word; the value the accessor PRESENTS (the stored word
         # seen through the range mirrored from the target) must be the one that is loaded, too
         def presented(o_):
